@@ -29,14 +29,18 @@ def viaUpgradeOptions : Path → Src
     match upgradeLiteral.lookup f with
     | some (.var q) => .var (q ++ rest)
     | some (.const t) => .const t
+    | some (.fold g s) => if rest = [] then .fold g s else .var ("?field-of-folded" :: "#upgrade" :: f :: rest)
     | none => .var ("?unmapped" :: "#upgrade" :: f :: rest)
   | p => .var p
 
+/-- Locals of `add_node` computed from the options (`owner`) as a substitution. -/
+def viaAddLocals : Path → Src := viaLocals localsLiteral
+
 /-- The builder record `add_node` fills in. -/
-def builderOf (σ : Valuation) : Valuation := through viaBuilder σ
+def builderOf (σ : Valuation) : Valuation := through viaBuilder (through viaAddLocals σ)
 
 /-- The registry entry `add_node` records (install → registry copy). -/
-def recordOf (σ : Valuation) : Valuation := through viaData σ
+def recordOf (σ : Valuation) : Valuation := through viaData (through viaAddLocals σ)
 
 /-- Arguments written at installation. -/
 def buildInstall (σ : Valuation) : List Item := interp evmDisplay installTable (builderOf σ)
@@ -59,27 +63,28 @@ def upgradeSettings (data : Valuation) : List (String × Val) :=
 
 def envPath : Path := ["options", "env_variables"]
 
-/-- `node_registry.environment_variables` after `add_node` (previous value `prev`). -/
-def registryEnvAfterInstall (σ : Valuation) (prev : Option String) : Option String :=
-  if registryEnvFromInstall then
+/-- `node_registry.environment_variables` after `add_node` returned in the way `out` (previous value
+`prev`): stored only if the storing statement was reached. -/
+def registryEnvAfterInstall (σ : Valuation) (prev : Option AStr) (out : AddOutcome) : Option AStr :=
+  if envStored registryEnvStore out then
     match σ envPath with
     | .opt (some e) => some e
     | _ => prev
   else prev
 
 /-- `env_variables` of `antctl upgrade`: the `--env` given there, else the registry-wide one. -/
-def envAtUpgrade (σ : Valuation) (provided prev : Option String) : Option String :=
+def envAtUpgrade (σ : Valuation) (provided prev : Option AStr) (out : AddOutcome) : Option AStr :=
   match provided with
   | some e => some e
-  | none => registryEnvAfterInstall σ prev
+  | none => registryEnvAfterInstall σ prev out
 
 /-- The option record extended with the environment in force at upgrade time (`#env`). -/
-def withEnv (σ : Valuation) (provided prev : Option String) : Valuation :=
-  fun p => if p = ["#env"] then .opt (envAtUpgrade σ provided prev) else σ p
+def withEnv (σ : Valuation) (provided prev : Option AStr) (out : AddOutcome) : Valuation :=
+  fun p => if p = ["#env"] then .opt (envAtUpgrade σ provided prev out) else σ p
 
 /-! ### `NodeService::on_start` (full refresh) stores the port the node listens on -/
 
-def afterStart (data : Valuation) (listen : Option String) : Valuation :=
+def afterStart (data : Valuation) (listen : Option AStr) : Valuation :=
   fun p => if p = ["node_port"] then (match listen with | some x => .opt (some x) | none => data p) else data p
 
 /-! ### antnode's command line under the shipped features -/
